@@ -326,10 +326,12 @@ def history_stage(tier):
     try:
         for g, n, below, cfg in ((S.G5(True), 2, (), dict(pruning=2, penalty='0')), (S.G3(True), 2, S.one_tag(2, 2), dict(pruning=1, penalty='sym')),
                                  (S.G4(), 2, (), dict(pruning=2, penalty='sym', nbest=1)),
+                                 # sentences with a spanning analysis but no allowed root (A B -> X, X not a root): their own placeholder, nothing else
+                                 (S.G8(), 2, S.one_tag(2, 2, [0, 1]), dict(pruning=1, penalty='sym', nbest=1)),
                                  # ties by construction: all dependency scores held at 0, the tag scores symbolic
                                  (S.GT(), 3, (), dict(pruning=3, penalty='0', eq=[('d', i, h, 0) for i in range(3) for h in range(4)]))):
             ob = S.SOb('C11.history[%s]' % g['name'], g, n, below, **cfg)
-            r = A.run_obligation(ba, ob.name, ob.spec('omsnb', True, every), max_seconds=(40 if g['name'] == 'GT' and q else 120))
+            r = A.run_obligation(ba, ob.name, ob.spec('omsnb', True, (1 if g['name'] in ('G8', 'G3c') else every)), max_seconds=(40 if g['name'] == 'GT' and q else 120))
             wit = [rec for rec in r['records'] if S.model_ok(rec['model'])]
             cap = 60 if q else 400
             if len(wit) > cap:
@@ -362,6 +364,10 @@ def history_stage(tier):
                 errs = [x['error'] for x in (solo_u, solo_w, uw, wu, ulw, pool, wuw) if x.get('error')]
                 if errs:
                     bad.append(('history.run-raises', dict(grammar=g['name'], error=errs[0][:300], job=jobs[k + 2])))
+                    continue
+                empty = [x for x in (solo_u, solo_w, uw, wu, ulw, pool, wuw) if any(len(ts) == 0 for ts in x['sentences'])]
+                if empty:
+                    bad.append(('history.empty-result-list', dict(grammar=g['name'], note='a sentence came back with no tree and no failure placeholder', job=jobs[k + 2])))
                     continue
                 short = [(x['n_results'], nn) for x, nn in ((solo_u, 1), (solo_w, 1), (uw, 2), (wu, 2), (ulw, 3), (pool, 2), (wuw, 3)) if x['n_results'] != nn or len(x['sentences']) != nn]
                 if short:
